@@ -23,8 +23,8 @@ from common import hexf, unhex, close, TOL, run_driver
 import scen_c18 as sc
 
 META = {
-    'text': 'Theorems (Lean 4; data movement, so generic in the value type — any array contents incl. NaN; any number of particles, compounds, tracers, rows): for the transcribed writers/readers of single_bubble_model, bent_plume_model, stratified_plume_model, dispersed_phases.save/load_particle_to/from_nc_file and ambient.create_nc_db/fill_nc_db/get_nc_data, load(save x) returns every solution array (t,y / t,q / zi,yi,zo,yo) and every stored particle-definition field of x exactly, and save(load(save x)) = save x. The full statement is FALSE for the code as written and the negations are proved with concrete witnesses: delta, lag_time, the k_bio/t_bio/C_pen/C_pen_T entries of user data, k_bio/t_bio/fp_type of insoluble particles and cj with other than one tracer are not stored (two different definitions give the same file). Every run saves real simulations of all three models, compares the file with the model, loads into a new object, compares every array bit for bit and every definition field, re-saves and re-loads; text export and profile files likewise.',
-    'note': 'Trusted: Lean kernel + 3 standard axioms; my transcription of the writers/readers (tied on every run by comparing the real netCDF file, name by name and value by value, with the model\'s save, and the real loader with the model\'s load); netCDF4/xarray are NOT modelled (contract: they store and return arrays and attributes unchanged; " ".join/str.split are inverse on whitespace-free names); numpy.savetxt/loadtxt are not modelled (checked by reading the text files back); the profile theorem covers the first fill of an empty data base (the interpolating re-fill branch of fill_nc_db is sampled only); state attributes a loaded bent-plume particle receives from LagElement.update (t, x, y, z, integrate) are outside the listed definition fields and not compared.',
+    'text': 'Theorems (Lean 4; pure data movement, hence generic in the value type: any array contents incl. NaN, any number of particles, compounds, tracers, rows): for the transcribed writers/readers of single_bubble_model, bent_plume_model, stratified_plume_model, dispersed_phases.save/load_particle_to/from_nc_file and ambient.create_nc_db/fill_nc_db/get_nc_data, load(save x) returns every solution array (t,y / t,q / zi,yi,zo,yo), every model parameter and every STORED particle-definition field of x exactly (sbm/bpm/spm/particles_load_save_partial, *_arrays_exact, profile_load_save), and save(load(save x)) = save x (bpm/spm/particles_resave_fixpoint). The full statement is FALSE for the code as written; the negations are proved with concrete witnesses: delta, lag_time, the k_bio/t_bio/C_pen/C_pen_T entries of user data, k_bio/t_bio/fp_type of insoluble particles and cj with other than one tracer are not stored (two different definitions give one file; load_save_id_false), save_sim raises without tracers, re-saving a reloaded single-particle model raises (sbm_resave_raises). Every run saves real simulations of all three models, compares each netCDF file name by name and value by value with the model\'s save, loads into a new object, compares every array bit for bit and every definition field, re-saves and re-loads; text export, re-attached profile and profile files likewise; each confirmed loss is reported under its own key with a stand-alone reproduction.',
+    'note': 'Trusted: Lean kernel + 3 standard axioms; my transcription of the writers/readers (tied on every run by comparing the real netCDF file — names, order, dtypes, dimensions, attributes, written cells, values — with the model\'s save, and the real loader with the model\'s load). NOT modelled, assumed by contract: netCDF4/xarray store and return arrays and attributes unchanged (f8/i4 cells, fill value for unwritten cells); " ".join/str.split are inverse on whitespace-free names; numpy.savetxt/loadtxt (%.18e round-trips a double; checked by reading the text back). The profile theorem covers the first fill of an empty data base; the interpolating re-fill branch of fill_nc_db, the Profile constructor and the re-attachment of the profile on load are sampled only (bit-for-bit: the file stores f8 and both routes run the same constructor). The delta_groups theorem carries the guard "no all-zero row" (0/0): that loss is found on the real code only. State attributes a reloaded bent-plume particle receives from LagElement.update at load time (t, x, y, z, integrate) are not definition fields and are compared only against the reader itself. The only arithmetic on the path (re-normalisation of delta_groups by the FluidMixture constructor) is compared at 1e-15 (real vs real) / 1e-11 (model vs real).',
     'technique': 'Lean 4 proof about a hand model of the (de)serialisers + file-level differential execution against the real code',
 }
 GEN = []
@@ -1145,3 +1145,38 @@ def _run(ctx, lean_ok, tmp):
     for name in sorted(ntot):
         ctx.oblige('correspondence %s == real code on %d cases' % (name, ntot[name]), nbad.get(name, 0) == 0,
                    '%d disagreements' % nbad.get(name, 0))
+
+
+def replay(ctx, path):
+    """./check C18 --replay <file>: rebuild the failing case from its spec and run the same predicates"""
+    import json
+    import common
+    d = json.load(open(path))
+    spec = (d.get('case') or {}).get('spec') or (d.get('case') or {}).get('profile')
+    if spec is None:
+        print('replay file has no spec (broken proof obligation?): %s' % d.get('what'))
+        return 2
+    os.makedirs(SCRATCH, exist_ok=True)
+    tmp = tempfile.mkdtemp(prefix='replay-', dir=SCRATCH)
+    job = Job()
+    try:
+        if 'ptype' in spec:
+            check_particle_list(ctx, job, tmp, 0, spec)
+        elif 'model' in spec:
+            kind = spec['model']
+            with sc.quiet():
+                nc, _d, _n, _u, _c = sc.write_profile(spec['profile'], os.path.join(tmp, 'prf.nc'))
+                nc.close()
+            prf = sc.profile_from_file(os.path.join(tmp, 'prf.nc'))
+            m = sc.RUN[kind](spec, prf)
+            check_sim(ctx, job, tmp, kind, m, spec, 'replayed %s' % kind)
+        else:
+            check_profile(ctx, job, tmp, 0, spec)
+    finally:
+        shutil.rmtree(tmp, ignore_errors=True)
+    keys = sorted(set(v['key'] for v in ctx.violations))
+    print('replayed %s: violations %s' % (path, keys or 'none'))
+    hit = [v for v in ctx.violations if v['key'] == d.get('key')]
+    for v in hit[:1]:
+        print('REPRODUCED key=%s %s' % (v['key'], v['what']))
+    return 1 if hit else 0
